@@ -733,7 +733,7 @@ class World:
                 rd = world.cfg["rec_durs"]
                 if len(rd) > 1:
                     E.advance(rd[world.ch.choose("recdur", len(rd))] * TAU)
-                world.trace.append(("strategy_rec", name, "failure", klass_name(klass)))
+                world.trace.append(("strategy_rec", name, "failure", klass_name(klass), world.rel()))
 
         return StrategyObject()
 
